@@ -725,6 +725,23 @@ class Spec(object):
                 return ta
             return None
         if is_sym(v):
+            if self.ranges and isinstance(v, (Sym, Lin, Op)):
+                # truthiness of a ranged integer: decided when the range excludes 0 or is exactly 0; otherwise the range is split at 0
+                r = self.interval(v) if not (isinstance(v, Op) and v.op in ("Gt", "GtE", "Lt", "LtE", "Eq", "NotEq", "and*", "not", "In", "NotIn", "Is", "IsNot")) else None
+                if r is not None:
+                    if r == (0, 0):
+                        return False
+                    if r[0] > 0 or r[1] < 0:
+                        return True
+                    lv = lin(v)
+                    if lv is not None and len(lv.terms) == 1:
+                        (a_, k_), = lv.terms.items()
+                        if k_ in (1, -1) and repr(a_) in self.ranges:
+                            ar = self.ranges[repr(a_)]
+                            zero_at = -lv.const if k_ == 1 else lv.const
+                            point = zero_at - 1 if ar[0] < zero_at else zero_at
+                            if ar[0] <= point < ar[1]:
+                                raise NeedSplit(repr(a_), point)
             return None
         return self.truthy(v)
 
@@ -805,7 +822,8 @@ class Spec(object):
             return True
         if verdict[1]:
             return False
-        if isinstance(d, Lin) and len(d.terms) == 1:
+        d = lin(d) if not isinstance(d, Lin) else d
+        if isinstance(d, Lin) and len(d.terms) == 1 and repr(next(iter(d.terms))) in self.ranges:
             (a, c), = d.terms.items()
             ar = self.ranges[repr(a)]
             # boundary on the atom: c*x + k crosses zero (for == / != : the point itself is split off in two steps)
@@ -821,6 +839,29 @@ class Spec(object):
                 point = math.ceil(x0) - 1   # c*x + k >= 0 <=> x >= x0 (c > 0): cases x <= ceil(x0)-1, x >= ceil(x0)
             point = max(ar[0], min(ar[1] - 1, int(point)))
             raise NeedSplit(repr(a), point)
+        if isinstance(d, Lin) and len(d.terms) > 1 and all(repr(a_) in self.ranges for a_ in d.terms):
+            # several ranged atoms: split one of them where the sign of the whole becomes independent of the others; failing that, halve the widest
+            import math
+            items = sorted(d.terms.items(), key=lambda kv: -(self.ranges[repr(kv[0])][1] - self.ranges[repr(kv[0])][0]))
+            for a, c in items:
+                ar = self.ranges[repr(a)]
+                if ar[0] == ar[1]:
+                    continue
+                rlo = rhi = d.const
+                for b, cb in d.terms.items():
+                    if b is a:
+                        continue
+                    br = self.ranges[repr(b)]
+                    rlo += min(cb * br[0], cb * br[1])
+                    rhi += max(cb * br[0], cb * br[1])
+                cands = [math.ceil(-rhi / c) - 1, math.floor(-rlo / c)] if c > 0 else [math.ceil(-rlo / c) - 1, math.floor(-rhi / c)]
+                for pt in cands:
+                    if ar[0] <= pt < ar[1]:
+                        raise NeedSplit(repr(a), int(pt))
+            for a, c in items:
+                ar = self.ranges[repr(a)]
+                if ar[0] < ar[1]:
+                    raise NeedSplit(repr(a), (ar[0] + ar[1]) // 2)
         return None
 
     def compare(self, op, left, rv):
@@ -845,6 +886,13 @@ class Spec(object):
                 known = self.nonnull(rv)
                 if known is not None:
                     return (not known) if t is ast.Is else known
+            # x == None / x != None for a value known not to be None (or known to be None)
+            if t in (ast.Eq, ast.NotEq) and (rv is None or left is None):
+                other = left if rv is None else rv
+                if isinstance(other, (Sym, Op, Lin, Guard)):
+                    known = self.nonnull(other)
+                    if known is not None:
+                        return (not known) if t is ast.Eq else known
             # membership of a symbolic in an empty container
             if t is ast.In and not is_sym(rv) and hasattr(rv, "__len__") and len(rv) == 0:
                 return False
@@ -1405,6 +1453,16 @@ class Spec(object):
             self.effect("mutate", name, show(self_obj)[:40], tuple(args), node=node)
             self.taint(self_obj)
             return None
+        if f is sorted and len(args) == 1 and set(kw) <= {"key", "reverse"} and "key" in kw and not isinstance(kw["key"], FuncRef) and callable(kw["key"]) and not is_sym(args[0]):
+            # sorted(items, key=operator.itemgetter(0)) and the like: a host callable applied to each element; usable when every key comes out concrete
+            try:
+                items = list(args[0])
+                keys = [kw["key"](it) for it in items]
+                if not any(has_sym(k) or is_sym(k) for k in keys):
+                    order = sorted(range(len(items)), key=lambda i: keys[i], reverse=bool(kw.get("reverse", False)))
+                    return [items[i] for i in order]
+            except Exception:
+                pass
         if f is sorted and len(args) == 1 and set(kw) <= {"key", "reverse"} and isinstance(kw.get("key"), FuncRef) and not is_sym(args[0]):
             # sorted(items, key=<repo function>): the key function is inlined per element; a concrete order exists when every key is concrete
             try:
